@@ -19,7 +19,7 @@ RULE = (
 ASSUMPTIONS = [
     "indices beyond the explored n (exhaustive n<=N_EXH, sampled n<=5000) and k>4 are not covered",
 ]
-REQUIRED = {"unrank_checked": {"quick": 100000, "thorough": 1000000}, "scorer_runs": {"quick": 20, "thorough": 100}}
+REQUIRED = {"unrank_checked": {"quick": 100000, "thorough": 1000000}, "scorer_runs": {"quick": 20, "thorough": 100}, "scorer_runs_production_regime": {"quick": 10, "thorough": 60}}
 
 N_EXH = {"quick": 40, "thorough": 64}
 BIG_N = [100, 317, 1000, 2000, 5000]
@@ -119,9 +119,20 @@ def run_shard(rec, tier, seed, shard, nshards):
     with kit.Patches() as P:
         P.wrap(G, "get_combination_at_sorted_index", mk)
         for run in range(n_runs):
-            n_thetas = int(rng.choice([3, 4, 5, 6, 9, 12, 17, 20, 25, 33, 40]))
-            total = comb(n_thetas, 3)
-            budget = int(rng.choice([1, 2, total - 1 if total > 1 else 1, total, total + 5, 50, 5000]))
+            if run % 3 == 2:
+                # production regime: hundreds of posterior samples, budget far below C(n,3); a draw WITH
+                # replacement would show here as a birthday collision (m^2/2N expected duplicates)
+                n_thetas = int(rng.choice([60, 100, 150, 300]))
+                total = comb(n_thetas, 3)
+                budget = int(rng.choice([300, 1000, 5000]))
+                while budget * budget < 3 * total:
+                    budget *= 2
+                budget = min(budget, 8000)
+                rec.count("scorer_runs_production_regime")
+            else:
+                n_thetas = int(rng.choice([3, 4, 5, 6, 9, 12, 17, 20, 25, 33, 40]))
+                total = comb(n_thetas, 3)
+                budget = int(rng.choice([1, 2, total - 1 if total > 1 else 1, total, total + 5, 50, 5000]))
             budget = max(1, budget)
             n_plates = int(rng.integers(1, 4))
             E = int(rng.integers(1, 5))
